@@ -169,6 +169,11 @@ func c05Build(p *chk.Prog, r *chk.Report) {
 				okMask = false
 			}
 		}
+		if !(okMask && n4 == 1 && n6 == 1) {
+			// by value: the mask used in the literal, in the executions with an IPv4 (IPv6) address, is CIDRMask of that
+			// family's aggregation length and address size - whichever way the two arguments were selected
+			okMask, n4, n6 = c05MaskByValue(f, g, lit, maskObj, ip, adc), 1, 1
+		}
 		x.Check("SetBalancer:ad:aggregation-length-per-family", st.Pos(), okMask && n4 == 1 && n6 == 1, "", "the mask is not CIDRMask(AggregationLength, 32) for IPv4 and CIDRMask(AggregationLengthV6, 128) exactly for IPv6 addresses")
 	}
 	// peers
@@ -626,6 +631,14 @@ func c05Cover(p *chk.Prog, r *chk.Report) {
 				return okk && len(as.Lhs) == 2 && len(as.Rhs) == 1 && f.MatchNew("SP.Password", as.Lhs[0]) != nil && f.MatchNew("SP.PasswordRef", as.Lhs[1]) != nil &&
 					f.MatchNew("passwordForSession(P.cfg, RECV.bgpType, RECV.secretHandling)", as.Rhs[0]) != nil
 			})) == 1
+			if !ok && v != nil {
+				// the pair taken first and handed to the literal: `pw, ref := passwordForSession(..)` ... Password: pw, PasswordRef: ref
+				idx := 0
+				if n == "PasswordRef" {
+					idx = 1
+				}
+				ok = definedByIdx(g, f, "passwordForSession(P.cfg, RECV.bgpType, RECV.secretHandling)", idx)(v)
+			}
 			x.Check("SessionParameters."+n, lit.Pos(), ok, "", "SessionParameters."+n+" is not taken from passwordForSession(p.cfg, …)")
 		case n == "CurrentNode":
 			x.Check("SessionParameters."+n, lit.Pos(), v != nil && f.MatchNew("RECV.myNode", v) != nil, "", "SessionParameters.CurrentNode is not c.myNode")
@@ -852,4 +865,62 @@ func c05ReportKey(p *chk.Prog, r *chk.Report) {
 		return true
 	})
 	x.Check("notifyAdsChanged:index-keyed-by-whole-prefix", bad, ok && n >= 2, "", "the prefix -> services index is not keyed by the advertisement's whole prefix (address/length) where it is built or read: services are reported as advertised to peers that are offered none of their prefixes")
+}
+
+// c05MaskByValue: every value the mask variable can hold where the advertisement is built is net.CIDRMask(L, B) with
+// (L, B) = (adCfg.AggregationLength, 32) in the executions where lbIP.To4() != nil and (adCfg.AggregationLengthV6, 128)
+// in those where it is nil.
+func c05MaskByValue(f *chk.Fn, g *chk.Graph, lit ast.Node, mask types.Object, ip, adc func(ast.Expr) bool) bool {
+	var use *ast.Ident
+	ast.Inspect(lit, func(n ast.Node) bool {
+		if id, ok := n.(*ast.Ident); ok && use == nil && f.ObjOf(id) == mask {
+			use = id
+		}
+		return true
+	})
+	if use == nil {
+		return false
+	}
+	at := g.FactSite(use)
+	for _, fam := range []struct {
+		v4    bool
+		field string
+		bits  int64
+	}{{true, "A.AggregationLength", 32}, {false, "A.AggregationLengthV6", 128}} {
+		against := g.GPat(fam.v4, "IP.To4() == nil", chk.H("IP", ip)) // the edges that contradict the family
+		cut := func(b *cfgBlock, k int) bool { return g.EdgeImplies(b, k, against) }
+		vals, ok := g.ValuesUnder(use, at, cut)
+		if !ok || len(vals) == 0 {
+			return false
+		}
+		for _, v := range vals {
+			b := f.MatchNew("net.CIDRMask(L, B)", v)
+			if b == nil {
+				return false
+			}
+			for hole, want := range map[string]func(ast.Expr) bool{
+				"L": func(e ast.Expr) bool { return f.MatchWith(fam.field, e, chk.H("A", adc)) != nil },
+				"B": func(e ast.Expr) bool { return f.IsConstInt(e, fam.bits) },
+			} {
+				arg := b[hole]
+				id, isId := ast.Unparen(arg).(*ast.Ident)
+				if !isId || f.ConstVal(arg) != nil {
+					if !want(arg) {
+						return false
+					}
+					continue
+				}
+				vs, ok := g.ValuesUnder(id, g.FactSite(id), cut)
+				if !ok || len(vs) == 0 {
+					return false
+				}
+				for _, e := range vs {
+					if !want(e) {
+						return false
+					}
+				}
+			}
+		}
+	}
+	return true
 }
